@@ -204,6 +204,17 @@ def contracts(env):
 def extra(rep, tier, seed, budget):
     """process_task: job.status must be the class name of whatever was raised
     (checked per outcome through the ghost) - and native replay of the worker."""
+    from specs import shared_facts as _sf
+    _sf.add_facts(rep, _sf.status_page_only_written_by_berte(), 'writers of BertE.status')
+    from bounded import c13_webhook as _wh
+    from pyvc.cli import write_replay as _wr
+    _r = _wh.run(tier, seed)
+    rep.bounded.append({k: _r.get(k) for k in ('name', 'scope', 'cases', 'distinct_nontrivial', 'n_failures', 'failure_signatures', 'wall_s')})
+    for _f in _r['failures'][:3]:
+        _k = 'bounded:c13_webhook:%s' % _f['signature']
+        if any(v['key'] == _k for v in rep.violations):
+            continue
+        rep.violations.append({'key': _k, 'what': 'webhook accepted an event without enqueueing a job: %s' % _f['signature'], 'replay': _wr(rep.pid, _k, _f), 'input': _f['case'], 'noinput': False})
     res = native_worker_check()
     rep.bounded.append(res)
     if res['n_failures']:
